@@ -66,7 +66,7 @@ let run (hist : string) (impl : string) =
             if w = "PANIC" then fail "C25" "e2e-panics" 0 x;
             if w = "LEAK" then (fail "C28" "goroutine-leak-or-hang" 0 x)) xs;
         let y = ref (sys_init hst.ecfg) in
-        let mon = ref Chk_e2e.init in
+        let mon = ref Chk_e2e.hinit in
         let ievs = Array.of_list ievs in
         let mends = ref [] and iends = ref [] in
         List.iteri (fun k (text, ev) ->
